@@ -152,6 +152,11 @@ def _act(r, i, e, occ):
             return
         r.emit([r.simpid, 'fault', 'die:' + e['how'], i, 0])
         how = e['how']
+        if how == 'sysexit':
+            # the child ends by an exception that is no Exception (sys.exit() in a hook, ^C)
+            raise SystemExit(e.get('code', 0))
+        if how == 'kbdint':
+            raise KeyboardInterrupt()
         if how == 'exit0':
             os._exit(0)
         if how == 'exit3':
@@ -162,6 +167,11 @@ def _act(r, i, e, occ):
             signal.signal(signal.SIGSEGV, signal.SIG_DFL)
             os.kill(os.getpid(), signal.SIGSEGV)
         os._exit(9)
+    if a == 'chdir':
+        # a test (or a test module at import) that changes the working directory for good
+        r.emit([r.simpid, 'fault', 'chdir', i, 0])
+        os.chdir(e.get('to', '/'))
+        return
     if a == 'call':
         # engine specific callback (threads etc.)
         r.emit([r.simpid, 'fault', 'call:' + e['fn'], i, 0])
@@ -284,6 +294,16 @@ def _make_class(modname, c, layers):
         finally:
             hook('test.ran', tid)
     ns['run'] = run
+
+    def debug(self):
+        # (-D: the runner calls startTest / test.debug() / stopTest itself, not test.run())
+        tid = self.id()
+        hook('test.debug', tid)
+        try:
+            return unittest.TestCase.debug(self)
+        finally:
+            hook('test.debugged', tid)
+    ns['debug'] = debug
     if c.get('layer') is not None:
         if c.get('layer_as_str'):
             ns['layer'] = LAYERMOD + '.' + c['layer']
@@ -334,6 +354,14 @@ def _make_doctest(modname, dt, layers):
                 return doctest.DocTestCase.run(self, result)
             finally:
                 hook('test.ran', tid)
+
+        def debug(self):
+            tid = self.id()
+            hook('test.debug', tid)
+            try:
+                return doctest.DocTestCase.debug(self)
+            finally:
+                hook('test.debugged', tid)
 
     tid = '%s.%s' % (modname, dt['name'])
     lines = ['>>> from vsim.simrt import hook']
